@@ -1,4 +1,5 @@
 import MakoModel.Paths8.Model
+import MakoModel.Path.Idem
 /-! Helper lemmas for the C08 theorems (association lists, declaration blocks, registry, kwargs). -/
 namespace MakoModel.Paths8
 
@@ -494,5 +495,44 @@ theorem perm_sortStrs (l : List Str) : (sortStrs l).Perm l := by
   induction l with
   | nil => exact List.Perm.refl _
   | cons a r ih => exact (perm_insertSorted a _).trans (List.Perm.cons a ih)
+
+/-! ## `os.path.abspath` -/
+
+theorem normpath_head_slash (p : Str) (h : p.head? = some '/') : (Path.normpath p).head? = some '/' := by
+  cases p with
+  | nil => simp at h
+  | cons c r =>
+    have hc : c = '/' := by simpa using h
+    subst hc
+    have hk : 1 ≤ Path.initialSlashes ('/' :: r) := by
+      unfold Path.initialSlashes
+      repeat' split
+      all_goals first | omega | simp_all
+    unfold Path.normpath
+    simp only [List.cons_ne_nil, if_false]
+    generalize Path.initialSlashes ('/' :: r) = k at hk
+    cases k with
+    | zero => omega
+    | succ n => simp [List.replicate_succ]
+
+theorem joinPath_of_abs (cwd q : Str) (h : q.head? = some '/') : Path.joinPath cwd q = q := by
+  simp [Path.joinPath, h]
+
+theorem joinPath_head_slash (cwd p : Str) (h : cwd.head? = some '/') : (Path.joinPath cwd p).head? = some '/' := by
+  unfold Path.joinPath
+  split
+  · assumption
+  · cases cwd with
+    | nil => simp at h
+    | cons c r => split <;> simpa using h
+
+theorem absPath_head (cwd p : Str) (h : cwd.head? = some '/') : (absPath cwd p).head? = some '/' :=
+  normpath_head_slash _ (joinPath_head_slash cwd p h)
+
+/-- `abspath` is idempotent (for an absolute working directory) -/
+theorem absPath_idem (cwd p : Str) (h : cwd.head? = some '/') : absPath cwd (absPath cwd p) = absPath cwd p := by
+  have hj := joinPath_of_abs cwd (absPath cwd p) (absPath_head cwd p h)
+  unfold absPath at hj ⊢
+  rw [hj, Path.normpath_idem]
 
 end MakoModel.Paths8
